@@ -59,6 +59,7 @@ CertOK(e) == LET B == Bonds IN
                       /\ e.label[e.parent[i] + 1] = e.label[i]
 TrConn == /\ IsOp("conn")
           /\ Clause("certificate_valid_MACHINERY", CertOK(Ev[l]))
+          /\ Clause("connectivity_test_answers", Ev[l].exc = "")
           /\ Clause("connected_iff_one_component",
                     Ev[l].value = (\A i \in 1..NAtoms : Ev[l].label[i] = Ev[l].label[1]))
 TrCopy == /\ IsOp("copy")
